@@ -293,8 +293,8 @@ func adFor(rng *hlib.Rng, class int) []byte {
 	case 1:
 		return rng.Bytes(1 + rng.Intn(16))
 	}
-	if hlib.Thorough() && rng.Chance(10) {
-		return rng.Bytes(2000 + rng.Intn(4000))
+	if hlib.Thorough() && rng.Chance(5) {
+		return rng.Bytes(1500 + rng.Intn(2500))
 	}
 	return rng.Bytes(100 + rng.Intn(900))
 }
@@ -629,4 +629,13 @@ func negativeOffsetProbe(o *hlib.Out) {
 		}
 	}
 	_ = a
+	// parameters admit main keys of any size >= the derived key size; the primitive exists only for 16/32
+	for _, l := range []int{24, 33, 64} {
+		c := &cfg{typ: "gcm", ks: 16, hkdf: "SHA256", tagSize: 16, seg: 64, ikm: make([]byte, l)}
+		if _, err := c.key(); err == nil {
+			if _, err := c.prim("key"); err != nil {
+				o.Count("note/key-with-parameters-but-no-primitive")
+			}
+		}
+	}
 }
